@@ -118,13 +118,19 @@ func runC04(r *mc.Run) {
 		if full != nil {
 			nlev = 2
 		} else {
-			nlev += c.Choose("levels", 3)
+			nlev += c.Choose("levels", 4)
+			if nlev == 4 { // an empty platform level list
+				nlev = 0
+			}
 			if nlev > 1 {
 				l2p = c.Choose("l2.pattern", len(c04Patterns))
 				l2s = c.Choose("l2.status", len(classes))
 			}
 		}
 		ti.TcbLevels = []world.Level{c04Level(p, q.tee, l1p, statuses[l1s])}
+		if nlev == 0 {
+			ti.TcbLevels = []world.Level{}
+		}
 		if nlev >= 2 {
 			ti.TcbLevels = append(ti.TcbLevels, c04Level(p, q.tee, l2p, classes[l2s]))
 		}
@@ -135,7 +141,7 @@ func runC04(r *mc.Run) {
 		mod := c.Choose("module", 3)
 		misv := c.Choose("module.isvsvn", 3)
 		mstat := c.Choose("module.status", len(statuses))
-		m2 := c.Choose("module.level2", 3)
+		m2 := c.Choose("module.level2", 5)
 		mid := fmt.Sprintf("TDX_%02x", q.tee[1])
 		isv := int(q.tee[0]) + []int{0, -1, 1}[misv]
 		mlevels := []world.Level{{Tcb: world.Tcb{Isvsvn: world.IntP(isv)}, TcbDate: "2029-01-01T00:00:00Z", TcbStatus: statuses[mstat]}}
@@ -144,6 +150,10 @@ func runC04(r *mc.Run) {
 			mlevels = append(mlevels, world.Level{Tcb: world.Tcb{Isvsvn: world.IntP(int(q.tee[0]) - 2)}, TcbDate: "2028-01-01T00:00:00Z", TcbStatus: "UpToDate"})
 		case 2:
 			mlevels = append(mlevels, world.Level{Tcb: world.Tcb{Isvsvn: world.IntP(int(q.tee[0]) - 2)}, TcbDate: "2028-01-01T00:00:00Z", TcbStatus: "OutOfDate"})
+		case 3: // the identity is listed but holds no level at all: "tcbLevels": []
+			mlevels = []world.Level{}
+		case 4: // "tcbLevels": null
+			mlevels = nil
 		}
 		ms := strings.Repeat("00", 48)
 		switch mod {
